@@ -66,6 +66,20 @@ def run(req):
         t = time.process_time()
         comp.select(soup)
         return {'t': time.process_time() - t}
+    if op == 'compile-custom':
+        n, shape = req['n'], req['shape']
+        body = {'fib': ':--c{a}, :--c{b}', 'nest': ':is(:--c{a}) > :--c{b}', 'not': 'p:not(:--c{a}):--c{b}',
+                'line': 'p > :--c{a}'}[shape]
+        custom = {f':--c{i}': body.format(a=i + 1, b=i + 2) for i in range(n)}
+        custom[f':--c{n}'] = 'a'
+        custom[f':--c{n + 1}'] = 'b'
+        sv.purge()
+        t = time.process_time()
+        try:
+            sv.compile(':--c0', custom=custom)
+        except Exception:  # noqa: BLE001
+            pass
+        return {'t': time.process_time() - t, 'chars': sum(len(k) + len(v) for k, v in custom.items())}
     if op == 'escape':
         t = time.process_time()
         sv.escape(req['text'])
